@@ -75,7 +75,8 @@ def conds_streamGRPC_SendMsg : List String := [
 
 def conds_streamWS_RecvMsg : List String := [
    "if s.method.hasBody",
-   "range s.method.body",
+   "if err != nil",
+   "return err",
    "if err != nil",
    "return err",
    "if s.maxRecv > 0 && len(b) > s.maxRecv",
